@@ -732,7 +732,7 @@ def run(ctx):
         "produces Python-equal but structurally different metadata); Triangle(...) of the blended cells keeps the "
         "first triangle's canonical order (C01)",
     ]
-    ctx.audit_tree(["Model/Blend.v", "Proofs/BlendP.v", "Props/C16.v"])
+    ctx.audit_tree(["Model/Blend.v", "Proofs/BlendP.v", "Proofs/BlendQ.v", "Proofs/BlendTop.v", "Props/C16.v"])
     prove_static_local(ctx, "Props/C16.v")
 
     n_cases = 420 if ctx.quick else 4000
